@@ -150,6 +150,28 @@ def direct(ctx, rng, idx):
     ctx.describe(limiter=name, npairs=n, a=a[:6], b=b[:6])
     phi = fn(a, b)
     judge(ctx, name, fn, a, b, phi, "direct")
+    # elementwise: the value for one pair must not depend on which other pairs are in the same call -- sub-arrays selected by the
+    # sign pattern (a reduction over the whole array deciding a branch shows here), by position, reshaped and integer-typed
+    pos, neg = (a > 0) & (b > 0), (a < 0) & (b < 0)
+    subsets = {"agreeing-signs": pos | neg, "both-positive": pos, "both-negative": neg, "opposite-or-zero": ~(pos | neg), "random-half": rng.random(n) < 0.5,
+               "first-one": np.arange(n) < 1, "first-two": np.arange(n) < 2, "one-agreeing-pair-of-each-sign": np.isin(np.arange(n), [np.flatnonzero(pos)[0], np.flatnonzero(neg)[0]])}
+    phi_a = np.asarray(phi, float)
+    for sname, msk in subsets.items():
+        if not np.any(msk):
+            continue
+        with probes.quiet():
+            sub = np.asarray(fn(a[msk], b[msk]), float)
+        same = (sub == phi_a[msk]) | (np.isnan(sub) & np.isnan(phi_a[msk]))
+        ctx.true("elementwise-subsets", bool(np.all(same)), name + "/value-depends-on-the-other-elements-of-the-array", None if np.all(same) else {"subset": sname, "a": a[msk][~same][0], "b": b[msk][~same][0], "in full array": phi_a[msk][~same][0], "in sub-array": sub[~same][0]}, cls="%s:direct" % name)
+    with probes.quiet():
+        resh = np.asarray(fn(a.reshape(4, -1), b.reshape(4, -1)), float)
+    ctx.true("elementwise-subsets", resh.shape == (4, n // 4) and bool(np.all((resh.ravel() == phi_a) | (np.isnan(resh.ravel()) & np.isnan(phi_a)))), name + "/value-depends-on-the-shape-of-the-array", None, cls="%s:direct" % name)
+    # integer-typed slopes (judged like any other call, and equal to the same call with floats)
+    ia, ib = rng.integers(-6, 7, 200), rng.integers(-6, 7, 200)
+    with probes.quiet():
+        pi_ = np.asarray(fn(ia, ib), float); pf_ = np.asarray(fn(ia.astype(float), ib.astype(float)), float)
+    ctx.true("integer-typed", bool(np.all(np.abs(pi_ - pf_) <= 4 * EPS * np.abs(pf_))), name + "/integer-typed-slopes-differ-from-floats", None if np.all(np.abs(pi_ - pf_) <= 4 * EPS * np.abs(pf_)) else {"a": ia[np.argmax(np.abs(pi_ - pf_))], "b": ib[np.argmax(np.abs(pi_ - pf_))]}, cls="%s:direct" % name)
+    judge(ctx, name, lambda x, y: fn(np.asarray(x), np.asarray(y)), ia, ib, pi_, "direct")
     # scalar calls
     # scalar calls: the twins are scalar calls too (python-float ** goes through libm pow, arrays through a*a)
     fs = lambda x, y: np.array([float(fn(float(xi), float(yi))) for xi, yi in zip(np.atleast_1d(x), np.atleast_1d(y))])
